@@ -83,7 +83,7 @@ def run_limits(ctx, speed_list, model=True):
 def gen_mass_case(rng, idx):
     rated = float(np.round(rng.uniform(300, 5000), 0))
     eng = plants.gen_engine_spec(rng, rated, dual=False)
-    n = int(rng.choice([1, 3, 6]))
+    n = int(rng.choice([1, 3, 6, 1500], p=[0.3, 0.33, 0.3, 0.07]))        # also a long series (a day at one-minute steps)
     lo, hi = 0.2, 1.1          # engines run up to their 110 % overload point when the curves go that far
     for e in eng.get("emissions", []):
         xs = [p[0] for p in e["points"]]
